@@ -159,7 +159,7 @@ class _Fault(Exception):
     pass
 
 
-def buffered(sym, cov, kind, calls, L, feed=False, fault=None, DL=2):
+def buffered(sym, cov, kind, calls, L, feed=False, fault=None, DL=2, FL=2):
     """kind: 'obj' | 'byte'; calls: string over {'r','e','u'} = receive / receive_exactly / receive_until"""
     from anyio import DelimiterNotFound, EndOfStream, IncompleteRead
     from anyio.streams.buffered import BufferedByteReceiveStream
@@ -193,7 +193,7 @@ def buffered(sym, cov, kind, calls, L, feed=False, fault=None, DL=2):
         chk(consumed + s.buffer == logical(), "prefix-property", where)
 
     if feed:
-        fed = sym.bytes("fed", 2)
+        fed = sym.bytes("fed", FL)
         s.feed_data(fed)
         pulled.append(fed)
         invariant("feed")
@@ -367,7 +367,7 @@ def text_roundtrip(sym, cov, encoding, nsends):
 def units(tier):
     quick = tier == "quick"
     us = []
-    B = 100 if quick else 1500
+    B = 240 if quick else 1500
     L = 3 if quick else 4
     seqs1 = ["r", "e", "u"]
     seqs2 = ["re", "er", "ue", "eu", "ur", "ru", "uu", "ee"]
@@ -380,7 +380,7 @@ def units(tier):
         for calls in seqs2:
             us.append({"name": "buf %s %s L=%d" % (kind, calls, 2 if quick else 3), "fn": buffered,
                        "params": {"kind": kind, "calls": calls, "L": 2 if quick else 3}, "budget_s": B})
-        us.append({"name": "buf %s feed+ru L=2" % kind, "fn": buffered, "params": {"kind": kind, "calls": "ru", "L": 2, "feed": True}, "budget_s": B})
+        us.append({"name": "buf %s feed+ru L=2" % kind, "fn": buffered, "params": {"kind": kind, "calls": "ru", "L": 2, "feed": True, "FL": 1 if quick else 2}, "budget_s": B})
         for calls in ("er", "ue", "re"):
             for fk in ("cancel", "error"):
                 us.append({"name": "buf %s %s fault=%s L=2" % (kind, calls, fk), "fn": buffered, "params": {"kind": kind, "calls": calls, "L": 2, "fault": fk}, "budget_s": B})
@@ -389,6 +389,7 @@ def units(tier):
             for calls in ("rue", "eur", "uue", "eer"):
                 us.append({"name": "buf %s %s L=3" % (kind, calls), "fn": buffered, "params": {"kind": kind, "calls": calls, "L": 3}, "budget_s": B})
     for enc in ("utf-8", "utf-16", "utf-32", "latin-1"):
-        us.append({"name": "text receive %s" % enc, "fn": text_receive, "params": {"encoding": enc, "nchars": 2 if quick else 3}, "budget_s": B})
+        # (the bound of the split points depends on the chosen characters: no coverage certificate for this unit)
+        us.append({"name": "text receive %s" % enc, "fn": text_receive, "params": {"encoding": enc, "nchars": 2 if quick else 3}, "budget_s": B, "certify": False})
         us.append({"name": "text roundtrip %s" % enc, "fn": text_roundtrip, "params": {"encoding": enc, "nsends": 2 if quick else 3}, "budget_s": B})
     return us
